@@ -83,11 +83,56 @@ def explicit(tier, seed):
                "opts": opts, "max_inv": 12}
 
 
+def inflight_cases(tier, seed):
+    """The parent's completion record is in flight (sent, response held) while a branch that has not recorded anything yet
+    issues its first update; and large descendant updates queued just before an early completion under a slow backend."""
+    rng = random.Random(seed + 99)
+    done_arrived = {"event": {"kind": "api", "has_update": {"Name": "0", "Type": "CONTEXT", "Action": "SUCCEED"}}}
+    for j in range(10 if tier == "quick" else 80):
+        kind = rng.choice(["par", "map"])
+        brs = [{"body": [{"k": "step", "val": "fast"}]}, {"body": [{"k": "step", "val": "late"}, {"k": "step", "val": "later"}]}]
+        node = {"k": "par", "branches": brs, "cfg": {"preset": "first_successful"}} if kind == "par" else \
+            {"k": "map", "items": [0, 1], "per_item": brs, "body": [], "cfg": {"min_ok": 1}}
+        bname = "parallel-branch-1" if kind == "par" else "map-item-1"
+        holds = [
+            {"match": {"kind": "gate", "name": "qop:CONTEXT:START:" + bname}, "until": done_arrived},
+            {"match": {"kind": "api", "has_update": {"Name": "0", "Type": "CONTEXT", "Action": "SUCCEED"}}, "until": {"never": True}},
+            {"match": {"kind": "gate", "name": "main-hold"}, "until": {"never": True}},
+        ]
+        yield {"label": "completion-in-flight|" + kind, "prog": {"body": [node, {"k": "gate", "name": "main-hold"}, {"k": "step", "val": "end"}]},
+               "prog_seed": 19700 + j, "pattern": {"p": "plain"}, "holds": holds, "max_inv": 8,
+               "opts": {"idle_s": 0.35, "hang_s": 3.0, "targeted": [{"kind": "qop_gate", "match": {"type": "CONTEXT", "action": "START", "name_re": "^" + bname + "$"}}]}}
+    for j in range(16 if tier == "quick" else 100):
+        nb = rng.choice([4, 5, 6])
+        brs = [{"body": [{"k": "step", "script": [{"do": "ok", "big": rng.choice([200, 250, 300]) * 1024}]}, {"k": "step", "val": b}]} for b in range(nb)]
+        if j % 2:
+            # a small, fast decider: the parent completes while the siblings' large records are still queued behind a slow call
+            brs[0] = {"body": [{"k": "step", "val": "decider"}]}
+        node = {"k": "par", "branches": brs, "cfg": {"min_ok": rng.choice([1, 2]) if j % 2 == 0 else 1}}
+        holds = [{"match": {"kind": "gate", "name": "main-hold"}, "until": {"never": True}}]
+        if j % 4 == 1:
+            # the siblings' large results are produced exactly while the call carrying the decider branch's completion is in flight,
+            # so they are queued in front of the parent's completion record that follows
+            decided = {"Name": "parallel-branch-0", "Type": "CONTEXT", "Action": "SUCCEED"}
+            for b in range(1, nb):
+                brs[b]["body"][0]["script"][0]["gate"] = "big"
+            holds = [{"match": {"kind": "gate", "name": "big"}, "until": {"event": {"kind": "api", "has_update": decided}}},
+                     {"match": {"kind": "api", "has_update": decided}, "delay_ms": 120}] + holds
+        yield {"label": "big-updates-before-early-completion", "prog": {"body": [node, {"k": "gate", "name": "main-hold"}, {"k": "step", "val": "end"}]},
+               "prog_seed": 19800 + j, "pattern": {"p": "plain"}, "latency_ms": rng.choice([(10, 30), (20, 60), (40, 90)]), "max_inv": 8,
+               "holds": holds, "opts": {"idle_s": 0.4, "hang_s": 3.0}}
+
+
+def explicit_all(tier, seed):
+    yield from explicit(tier, seed)
+    yield from inflight_cases(tier, seed)
+
+
 SPEC = Spec(
     PROP,
     props=["C10"],
     level="exploration",
-    explicit=explicit,
+    explicit=explicit_all,
     quick={"plain": 0, "enum": 0, "rand": 0, "async": 0},
     thorough={"plain": 0, "enum": 0, "rand": 0, "async": 0},
     rule="map/parallel completing early (min_successful reached, failure tolerance exceeded, both configured) x nesting depth 1-3 of the "
@@ -95,7 +140,9 @@ SPEC = Spec(
     "after the backend applied the parent's CONTEXT SUCCEED): inside a user function, between two operations, about to start its first "
     "operation x the next operation it starts (step, at-most-once step, wait, callback, invoke, wait_for_condition, child context, "
     "parallel, map, wait_for_callback); plus the check-then-put window forced by parking the survivor's queue.put of an already "
-    "registered operation until the parent's completion is applied; yield injection on 1/6. The main thread is held after the call "
+    "registered operation until the parent's completion is applied; a branch whose very first record is issued while the parent's "
+    "completion record is in flight (sent, response held by the conductor); large (200-300 KB) descendant updates queued just before an "
+    "early completion under a 10-60 ms backend; yield injection on 1/6. The main thread is held after the call "
     "returns so the orphan keeps running inside the same invocation. Oracle: over the applied-update stream no update (for an existing "
     "or a first-time operation) arrives after the completion record of one of its ancestors (ancestry from the ParentId links seen), and "
     "no user function is entered by a call issued after an ancestor's completion was applied. A class = the scenario tuple.",
